@@ -221,6 +221,52 @@ fn main() {
 """
 
 
+DESER_PROBE = """// generated by props/c15.py: PskBundle implements serde::Deserialize - does deserialization enforce the rule of new()?
+use hpke::PskBundle;
+use serde::de::value::{BorrowedBytesDeserializer, Error, SeqDeserializer};
+use serde::Deserialize;
+fn attempt(psk: &'static [u8], id: &'static [u8]) -> bool {
+    let items: Vec<BorrowedBytesDeserializer<'static, Error>> = vec![BorrowedBytesDeserializer::new(psk), BorrowedBytesDeserializer::new(id)];
+    let de = SeqDeserializer::<_, Error>::new(items.into_iter());
+    let r: Result<PskBundle<'static>, Error> = PskBundle::deserialize(de);
+    r.is_ok()
+}
+fn main() {
+    println!("PROBE_STARTED");
+    println!("BOTH {}", attempt(b"a pre-shared key of decent length", b"identifier"));
+    println!("LONE_KEY {}", attempt(b"a pre-shared key of decent length", b""));
+    println!("LONE_ID {}", attempt(b"", b"identifier"));
+}
+"""
+
+
+def deserialize_probe(env, d):
+    from lib import apisurface
+    facts = apisurface.surface(d)
+    de = [f for f in facts if f.startswith("impl Deserialize") and f.endswith("for PskBundle")]
+    others = [f for f in facts if f.endswith(" for PskBundle") and f.split(" ")[1] not in ("Clone", "Copy", "Deserialize")]
+    env.extra_cov["pskbundle_surface"]["trait_impls"] = [f for f in facts if f.endswith(" for PskBundle")]
+    if others:
+        env.note("PskBundle has trait impls the workloads do not know: %s" % others)
+    if not de:
+        return
+    ok, out = apisurface.run_probe(env.work, "pskdeser", DESER_PROBE, extra_deps='serde = { version = "1", default-features = false }\n')
+    env.count("evaluations", 1)
+    if not ok:
+        env.note("PskBundle implements Deserialize but the probe did not build or start: %s" % out[-400:])
+        return
+    got = dict(l.split(" ", 1) for l in out.splitlines() if l.startswith(("BOTH", "LONE_")))
+    if got.get("BOTH") != "true":
+        env.note("the Deserialize probe could not even build a valid bundle (format not as assumed): %s" % got)
+        return
+    for k in ("LONE_KEY", "LONE_ID"):
+        if got.get(k) == "true":
+            env.violation("C15:lone_half_constructible:deserialize", "PskBundle implements Deserialize and a %s is accepted (a sequence of two byte strings, one empty): a bundle that never met InvalidPskBundle" % (
+                "lone key" if k == "LONE_KEY" else "lone identifier"), workload="validation")
+            return
+    env.seen("deserialize-probe")
+
+
 def constructibility_probe(env):
     """'can be constructed exactly when ...': `PskBundle::new` is judged by the validation workload; here the compiled
     crate's surface is asked (rustdoc JSON) whether a bundle can be put into another state afterwards - through a
@@ -241,6 +287,7 @@ def constructibility_probe(env):
     if fields is None:
         env.inconclusive.append("PskBundle not found in the crate's documented surface")
         return
+    deserialize_probe(env, d)
     for f in pub:
         cdir = os.path.join(env.work, "pskfields")
         os.makedirs(os.path.join(cdir, "src"), exist_ok=True)
